@@ -190,7 +190,7 @@ def main():
     failed_keys = {k for k, _ in violations} | {k for k, _ in known_hits}
     n_failed = len(failed_keys)
     ev = {
-        'property_id': pid, 'tier': a.tier if a.tier in ('quick', 'thorough') else 'quick', 'seed': seed, 'level': 'proof',
+        'property_id': pid, 'tier': a.tier if a.tier in ('quick', 'thorough') else 'quick', 'seed': seed, 'level': props.MANIFEST_META.get(pid, {}).get('category', 'proof'),
         'coverage': {
             'obligations': n_ob, 'discharged': max(0, n_ob - n_failed) if rc != 2 else 0,
             'checker_cmd': res['cmd'],
